@@ -2,7 +2,7 @@
 //
 // Every case is one byte stream delivered to a real router session (hook-built Router, the real
 // serve loop on an in-memory connection). Streams run in child processes (address-space limit
-// 8 GiB, soft Go memory limit) so that process-fatal events are attributed to their input: the
+// 768 MiB - touching memory is very slow on the verification machine -, soft Go memory limit) so that process-fatal events are attributed to their input: the
 // batch is on disk before the child starts and the child appends the index of the stream it is
 // about to run to a side file.
 //
@@ -34,6 +34,7 @@ import (
 	"strconv"
 	"strings"
 	"sync"
+	"syscall"
 	"time"
 
 	bnet "github.com/bio-routing/bio-rd/net"
@@ -221,19 +222,31 @@ func runStream(idx int, s stream) (res result) {
 	res.Fatal = wedged
 	bound := uint64(allocBase + allocPerByte*res.Sent + allocPerFrame*complete)
 	if res.Alloc > bound {
-		ft, phase := "?", "?"
-		if worstFrame >= 0 {
-			f := frames[worstFrame]
-			ft = strconv.Itoa(f.Type)
-			phase = "decode"
-			if !f.Complete {
-				phase = "framing"
+		if worstFrame < 0 && !wedged {
+			// not fed frame by frame: attribute by serving the same stream once more frame by frame
+			if res.Alloc > 8<<20 {
+				runtime.GC()
+				debug.FreeOSMemory()
 			}
+			t := s
+			t.Feed = 0
+			for _, f := range runStream(idx, t).Findings {
+				if f.Clause == "alloc" {
+					add(f.Clause, f.Features, f.Detail+fmt.Sprintf(" [fed in mode %d the stream allocated %d bytes]", s.Feed, res.Alloc))
+					break
+				}
+			}
+		} else if worstFrame >= 0 {
+			f := frames[worstFrame]
+			ft, phase := strconv.Itoa(f.Type), "decode"
+			if !f.Complete {
+				ft, phase = "any", "framing"
+			}
+			add("alloc", vf.F("frame_type", ft, "phase", phase), fmt.Sprintf("stream %q: %d bytes sent in %d complete frames, %d bytes allocated (bound %d); largest step %d bytes at frame %d (type %d, declared length %d, %d bytes present)",
+				s.Label, res.Sent, complete, res.Alloc, bound, worst, worstFrame, f.Type, f.Declared, f.Len))
 		}
-		add("alloc", vf.F("frame_type", ft, "phase", phase), fmt.Sprintf("stream %q: %d bytes sent in %d complete frames, %d bytes allocated (bound %d); largest step %d bytes at frame %d (type %s, %s)",
-			s.Label, res.Sent, complete, res.Alloc, bound, worst, worstFrame, ft, phase))
 	}
-	if res.Alloc > 64<<20 {
+	if res.Alloc > 8<<20 {
 		runtime.GC()
 		debug.FreeOSMemory()
 	}
@@ -269,7 +282,7 @@ func goroutines() string {
 
 func childMain() {
 	bmprig.Quiet()
-	debug.SetMemoryLimit(6 << 30)
+	debug.SetMemoryLimit(512 << 20)
 	batch := os.Getenv("C27_CHILD")
 	start, _ := strconv.Atoi(os.Getenv("C27_START"))
 	raw, err := os.ReadFile(batch)
@@ -314,6 +327,8 @@ type batchOutcome struct {
 
 var fatalRe = regexp.MustCompile(`(?m)^(fatal error: .*|panic: .*|runtime: out of memory.*|SIGSEGV.*|signal: killed)$`)
 
+var infraRe = regexp.MustCompile(`pthread_create failed|failed to create new OS thread|failed to reserve page summary|cannot allocate memory for`)
+
 func lastSide(path string) int {
 	raw, err := os.ReadFile(path)
 	if err != nil {
@@ -351,11 +366,15 @@ func readResults(path string) []result {
 // startChild runs the batch from index start and reports how the child ended.
 func startChild(batch string, start int, watchdog time.Duration) (exit int, stderr string, timedOut bool) {
 	exe, _ := os.Executable()
-	errPath := batch + ".stderr"
+	errPath := fmt.Sprintf("%s.stderr.%d", batch, start)
+	if os.Getenv("C27_DEV_KEEP") == "" {
+		defer os.Remove(errPath)
+	}
 	ef, _ := os.Create(errPath)
-	cmd := exec.Command("bash", "-c", `ulimit -v 8388608; exec "$0"`, exe)
-	cmd.Env = append(os.Environ(), "C27_CHILD="+batch, "C27_START="+strconv.Itoa(start), "GOTRACEBACK=all")
+	cmd := exec.Command("bash", "-c", `ulimit -s 1024; ulimit -v 786432; exec "$0"`, exe)
+	cmd.Env = append(os.Environ(), "C27_CHILD="+batch, "C27_START="+strconv.Itoa(start), "GOTRACEBACK=all", "GOMAXPROCS=2")
 	cmd.Stdout, cmd.Stderr = ef, ef
+	cmd.SysProcAttr = &syscall.SysProcAttr{Pdeathsig: syscall.SIGKILL}
 	if err := cmd.Start(); err != nil {
 		return -1, err.Error(), false
 	}
@@ -394,18 +413,30 @@ func runBatch(dir, name string, streams []stream, watchdog time.Duration) batchO
 		return bo
 	}
 	defer func() {
-		for _, sfx := range []string{"", ".side", ".out", ".stderr"} {
+		if os.Getenv("C27_DEV_KEEP") != "" {
+			return
+		}
+		for _, sfx := range []string{"", ".side", ".out"} {
 			os.Remove(batch + sfx)
 		}
 	}()
 	start := 0
 	restarts := 0
+	infra := 0
 	for start < len(streams) {
 		exit, stderr, timedOut := startChild(batch, start, watchdog)
 		if exit == 0 && !timedOut {
 			break
 		}
 		last := lastSide(batch + ".side")
+		if infraRe.MatchString(stderr) && infra < 20 {
+			// the address-space limit hit the Go runtime itself (thread or runtime metadata), not the receiver: same stream again
+			infra++
+			if last >= start {
+				start = last
+			}
+			continue
+		}
 		if last < start {
 			bo.note = append(bo.note, fmt.Sprintf("child of batch %s ended (exit %d) before running a stream: %.300s", name, exit, stderr))
 			break
@@ -419,7 +450,7 @@ func runBatch(dir, name string, streams []stream, watchdog time.Duration) batchO
 			os.WriteFile(single, sraw, 0o644)
 			_, serr, again := startChild(single, 0, 4*streamWatch)
 			rs := readResults(single + ".out")
-			for _, sfx := range []string{"", ".side", ".out", ".stderr"} {
+			for _, sfx := range []string{"", ".side", ".out"} {
 				os.Remove(single + sfx)
 			}
 			if again {
@@ -500,7 +531,9 @@ func main() {
 			"allocation is measured as runtime.MemStats.TotalAlloc growth of the child process while one stream is served, harness allocations (a copy of the stream) included",
 			"bio-rd's logger is replaced by a discarding one")
 		dir := scratchDir()
-		defer os.RemoveAll(dir)
+		if os.Getenv("C27_DEV_KEEP") == "" {
+			defer os.RemoveAll(dir)
+		}
 
 		record := func(s stream, res result) {
 			for _, f := range res.Findings {
@@ -521,7 +554,11 @@ func main() {
 		}
 
 		total := r.N(15000, 450000)
-		per := 750
+		if v, err := strconv.Atoi(os.Getenv("C27_DEV_LIMIT")); err == nil && v > 0 {
+			total = v // development aid only: never set by ./check
+			r.Inconclusive("C27_DEV_LIMIT set: reduced workload")
+		}
+		per := 250
 		nb := (total + per - 1) / per
 		var mu sync.Mutex
 		byLabel := map[string]int{}
